@@ -469,24 +469,22 @@ def setitem(eng, st, recv, idx, val, node):
             raise Unsupported(f"dict store kinds {idx.kind!r}:{val.kind!r} into {recv.kind!r}")
         k, v = box(idx, recv.kk), box(val, recv.vk)
         has = _simp(z3.Contains(recv.keys, z3.Unit(k)))
-        outs = []
         vals2 = z3.Store(recv.vals, k, v)
-        if not z3.is_false(has):
-            s_has = st.assume(has).assume(z3.Length(recv.keys) >= 1)
-            if z3.is_true(has) or eng.feasible(s_has):
-                outs.append((s_has, DictV(recv.kk, recv.vk, recv.keys, vals2), NONE))
-        if not z3.is_true(has):
-            s_new = st.assume(_simp(z3.Not(has)))
-            if eng.feasible(s_new):
-                keys = z3.Concat(recv.keys, z3.Unit(k))
-                s_new = s_new.assume(z3.Length(keys) == z3.Length(recv.keys) + 1)
-                # membership after insertion (a consequence of seq.contains over concat that the
-                # solvers do not derive under quantifiers by themselves)
-                xq = z3.FreshConst(recv.kk.sort(), "kq")
-                s_new = s_new.assume(z3.ForAll([xq], z3.Contains(keys, z3.Unit(xq))
-                                               == z3.Or(z3.Contains(recv.keys, z3.Unit(xq)), xq == k)))
-                outs.append((s_new, DictV(recv.kk, recv.vk, keys, vals2), NONE))
-        return outs
+        if z3.is_true(has):
+            return [(st, DictV(recv.kk, recv.vk, recv.keys, vals2), NONE)]
+        # no path split: an existing key keeps its position, a new key is appended.  The new key
+        # sequence is a fresh constant characterised pointwise (length, membership, every position):
+        # the solvers instantiate these axioms by matching, whereas they get lost in seq.contains
+        # over nested concat/ite terms
+        n0 = z3.Length(recv.keys)
+        keys = z3.FreshConst(recv.keys.sort(), "keys")
+        s2 = st.assume(z3.Length(keys) == n0 + z3.If(has, 0, 1))
+        xq = z3.FreshConst(recv.kk.sort(), "kq")
+        s2 = s2.assume(z3.ForAll([xq], z3.Contains(keys, z3.Unit(xq)) == z3.Or(z3.Contains(recv.keys, z3.Unit(xq)), xq == k)))
+        jq = z3.FreshConst(z3.IntSort(), "jq")
+        s2 = s2.assume(z3.ForAll([jq], z3.Implies(And(jq >= 0, jq < n0), keys[jq] == recv.keys[jq])))
+        s2 = s2.assume(z3.Implies(z3.Not(has), keys[n0] == k))
+        return [(s2, DictV(recv.kk, recv.vk, keys, vals2), NONE)]
     if isinstance(recv, LitDict):
         ks = _simp(idx.t) if isinstance(idx, StrV) else None
         if ks is not None and z3.is_string_value(ks):
